@@ -1,5 +1,6 @@
 import OnlVerif.Lemmas.ConserveStore
 import OnlVerif.Lemmas.ConserveTrace
+import OnlVerif.Lemmas.ConserveFifo
 /-!
 # Concrete runs used as non-vacuity witnesses by `Props/C06.lean` and `Props/C07.lean`
 
@@ -92,6 +93,8 @@ theorem noTrig : ∀ st rs, (body st rs).NoTrig := fun _ _ =>
 
 theorem wf0 : WF s0 := spawned_wf rs 0 (queues_empty_of_all rs (by decide))
 theorem noReq0 : ∀ e, isReq s0 e = false := spawned_noReq rs 0
+
+theorem sorted0 : QSorted s0 := QSorted.of_empty s0 (queues_empty_of_all rs (by decide))
 
 theorem reach1 : SafeReach body 5 s0 s1 :=
   SafeReach.step SafeReach.init (stepOK_of_noTrig body noTrig 5 s0) (stepSt_spec body 5 s0 (by decide))
